@@ -26,7 +26,7 @@ func init() { register(c11{}) }
 func (c11) ID() string    { return "C11" }
 func (c11) Level() string { return "exploration" }
 func (c11) Rule() string {
-	return "packets of the C01 domain, biased towards CONNECT with 2..6 will properties and SUBSCRIBE/SUBACK/UNSUBACK (the encoders that range over maps); per packet 16 (quick) / 64 (thorough) encodings with a random interleaving of String, Dump, WellFormed, a full accessor sweep and the decoding of unrelated frames elsewhere in the program in between: all encodings byte-identical, accessor snapshot unchanged after every operation. The same seeded packets are encoded again in 3 (quick) / 8 (thorough) sets of separate worker processes (other map hash seeds) and the SHA-256 digests compared per packet. One case encodes 400 built and decoded packets again after pauses of 1.2 s and 2.2 s of wall-clock time. distinct = (packet signature, interleaving of read-only operations); non-trivial = at least one optional field present"
+	return "packets of the C01 domain, biased towards CONNECT with 2..6 will properties and SUBSCRIBE/SUBACK/UNSUBACK (the encoders that range over maps); per packet 16 (quick) / 64 (thorough) encodings with a random interleaving of String, Dump, WellFormed, a full accessor sweep the decoding of unrelated frames and the encoding of other packets (a larger PUBLISH full of 0xff, a random packet of the same type) elsewhere in the program in between: all encodings byte-identical, accessor snapshot unchanged after every operation. The same seeded packets are encoded again in 3 (quick) / 8 (thorough) sets of separate worker processes (other map hash seeds) and the SHA-256 digests compared per packet. One case encodes 400 built and decoded packets again after pauses of 1.2 s and 2.2 s of wall-clock time. distinct = (packet signature, interleaving of read-only operations); non-trivial = at least one optional field present"
 }
 func (c11) Assumptions() []string {
 	return []string{"C01 domain", "Dump writes to a harness-owned buffer; WellFormed is called where the packet type has it"}
@@ -186,6 +186,15 @@ func (c11) Run(c *run.Ctx, phase, idx int) {
 				// something else happens in the program: an unrelated frame is decoded
 				noise(r)
 				ops = append(ops, 'N')
+				c.Eval(1)
+				continue
+			}
+			if r.Chance(1, 7) {
+				// ... or other packets are encoded: a bigger PUBLISH full of 0xff
+				// and a random packet of this type (encode buffers that are
+				// pooled or kept leak their bytes into the next frame)
+				encodeNoise(r, int(a.Type), len(b0))
+				ops = append(ops, 'E')
 				c.Eval(1)
 				continue
 			}
